@@ -13,6 +13,7 @@ structure PDecl where
   flags : String
   onSignal : String
   deps : List (String × String)      -- (dependency, condition letter)
+  sdt : Nat := 0                     -- shutdown.timeout_seconds
 deriving Repr, Inhabited
 
 structure Oracle where
@@ -62,6 +63,8 @@ structure Oracle where
   ovNames : List String := []        -- names that had two unfinished instances at the same time
   winNames : List String := []       -- names touched inside another thread's check-then-act window
   staleNames : List String := []     -- names whose (re)started instance did not begin in state Pending
+  termPending : List String := []    -- live command signalled by a stop with a kill timeout configured; neither exited nor killed yet
+  retd : List String := []           -- api ids that have returned
   steps : Nat := 0
 deriving Repr, Inhabited
 
@@ -97,10 +100,10 @@ def parseSt (s : String) : List (String × (String × Int × Nat × String)) :=
 
 def decl (o : Oracle) (n : String) : PDecl := (o.decls.find? (·.name = n)).getD { name := n, policy := "no", max := 0, flags := "", onSignal := "0", deps := [] }
 
-def declare (o : Oracle) (name pol mx fl onsig deps : String) : Oracle :=
+def declare (o : Oracle) (name pol mx fl onsig deps : String) (sdt : Nat := 0) : Oracle :=
   let ds := ((deps.splitOn ",").filter (· ≠ "-")).filterMap fun d => match d.splitOn ":" with
     | [k, c] => some (k, c) | _ => none
-  let d : PDecl := { name, policy := pol, max := mx.toNat?.getD 0, flags := fl, onSignal := onsig, deps := ds }
+  let d : PDecl := { name, policy := pol, max := mx.toNat?.getD 0, flags := fl, onSignal := onsig, deps := ds, sdt }
   { o with decls := o.decls ++ [d], status := o.status ++ [(name, if fl.contains 'x' then "Disabled" else "Pending")] }
 
 def isTerminal (s : String) : Bool := s == "Completed" || s == "Skipped" || s == "Error"
@@ -198,7 +201,13 @@ def onObs (o : Oracle) (op : List String) (cmdAfter : List String)
     -- itself after that request is not relaunched
     let reqd := if lookupD o.launchesInst x 0 > 0 && o.exitAfterSd.contains x then
         [s!"C02:relaunch-after-shutdown-request {x}", s!"C03:relaunch-after-shutdown-request {x}"] else []
-    let afterStop := afterStop ++ during ++ reqd
+    -- C08 / C06: a stop with a kill timeout returns only when the command is gone or was killed, so with
+    -- one request at a time no new command of `x` is launched while the signalled one is still alive
+    let inflight := (o.calls.filter fun (c : String × List String) => !o.retd.contains c.1 &&
+      (c.2 == ["stop", x] || c.2 == ["restart", x] || c.2 == ["start", x] || c.2 == ["shutdown"])).length
+    let early := if o.termPending.contains x && inflight ≤ 1 then
+        [s!"C08:launch-while-kill-timeout-pending {x}", s!"C06:stop-returned-before-kill-timeout {x}"] else []
+    let afterStop := afterStop ++ during ++ reqd ++ early
     let isRe := lookupD o.launchesInst x 0 > 0
     let code := lookupD o.lastCode x 0
     let pol := if !isRe then [] else
@@ -229,6 +238,8 @@ def onObs (o : Oracle) (op : List String) (cmdAfter : List String)
     -- after the timeout (sent from `stop:waitkill`) does not stop them again
     let me := match op with | ["s", "run", key] => key | _ => ""
     let escalation := (parseTh o.lastTh).any fun (kl : String × String) => kl.1 == me && kl.2 == "stop:waitkill"
+    let o := { o with termPending := if sig == "9" || dies then delS o.termPending x
+                                       else if wasAlive && d.sdt > 0 then addS o.termPending x else o.termPending }
     let o := { o with sdSignalled := addS o.sdSignalled x,
                       probersDown := if escalation then o.probersDown else addS o.probersDown x }
     (o, c12)
@@ -255,6 +266,7 @@ def onObs (o : Oracle) (op : List String) (cmdAfter : List String)
       else if gen.any (·.2.1 = c) then [] else [s!"C04:exit-code-of-victim {c}"]
     (o, alive ++ codeFail)
   | ["ret", id, r] =>
+    let o := { o with retd := addS o.retd id }
     match lookupD o.calls id [] with
     | ["stop", x] =>
       let known := o.decls.any (·.name = x)
@@ -345,13 +357,13 @@ def feed (o : Oracle) (op : List String) (impl : String) : Oracle × String :=
   let o := match op with
     | ["s", "exit", x, c] =>
       if o.prevCmd.contains x then
-        { o with lastCode := setKV o.lastCode x (c.toInt?.getD 0), natural := addS o.natural x,
+        { o with lastCode := setKV o.lastCode x (c.toInt?.getD 0), natural := addS o.natural x, termPending := delS o.termPending x,
                  exitAfterSd := if o.shutdownBegun && o.runAtShutdown.contains x && lookupD o.sdSeq x 0 == lookupD o.seenSeq x 0 then addS o.exitAfterSd x else o.exitAfterSd }
       else o
     | ["s", "probe", x, "ok"] =>
       if o.prevCmd.contains x then { o with probeOkEver := addS o.probeOkEver x, readySince := addS o.readySince x } else o
     | "s" :: "call" :: id :: rest =>
-      let o := { o with calls := setKV o.calls id rest }
+      let o := { o with calls := setKV o.calls id rest, retd := delS o.retd id }
       match rest with
       | ["start", x] =>
         let single := ((csv th).filter fun (t : String) => procNameOfKey ((t.splitOn "@").headD "") == some x).length == 1
